@@ -55,6 +55,12 @@ theorem TS.notSplice {G : String → Prop} {e : Expr} (h : TS G e) : isSplice e 
     constant-condition folding) -/
 def IsCall (e : Expr) : Prop := ∃ f args q, e = .form (.sym f :: args) q ∧ specials.contains f = false
 
+/-- conditions the `if` case covers: a literal or a symbol (a global one compiles to a constant: `janetc_if` folds the `if`; a local
+    one to its register: jump path), a call, a nested `if` (fresh register: jump path).  Not covered: `do` / `upscope` / `def` forms as
+    conditions (their slot can be a constant whose value is known only through the run) -/
+def CondOK (e : Expr) : Prop :=
+  (∃ w, e = .lit w) ∨ (∃ x, e = .sym x) ∨ IsCall e ∨ (∃ a t r q, e = .form (.sym "if" :: a :: t :: r) q)
+
 /-- the core fragment (session 4, second part): calls of global core functions with any number of arguments, and — when the
     switch `b` is on — `if` -/
 inductive TF (G : String → Prop) (b : Bool) : Expr → Prop
@@ -65,7 +71,7 @@ inductive TF (G : String → Prop) (b : Bool) : Expr → Prop
   | doo (body : List Expr) (p : Pos) : (∀ e, e ∈ body → TF G b e) → TF G b (.form (.sym "do" :: body) p)
   | deff (x : String) (v : Expr) (p : Pos) : ¬ G x → TF G b v → TF G b (.form [.sym "def", .sym x, v] p)
   | ups (body : List Expr) (p : Pos) : (∀ e, e ∈ body → TF G b e) → TF G b (.form (.sym "upscope" :: body) p)
-  | iff (cnd tb : Expr) (rest : List Expr) (p : Pos) : b = true → IsCall cnd → rest.length ≤ 1 → TF G b cnd → TF G b tb → (∀ e, e ∈ rest → TF G b e) →
+  | iff (cnd tb : Expr) (rest : List Expr) (p : Pos) : b = true → CondOK cnd → rest.length ≤ 1 → TF G b cnd → TF G b tb → (∀ e, e ∈ rest → TF G b e) →
       TF G b (.form (.sym "if" :: cnd :: tb :: rest) p)
 
 theorem TF.notSplice {G : String → Prop} {b : Bool} {e : Expr} (h : TF G b e) : isSplice e = none := by
